@@ -557,6 +557,78 @@ theorem reachable_base (ops : List Op) :
   let hw := wf_reachable ops
   ⟨hw.b01, hw.byDim0, hw.baseSome⟩
 
+/-! ### the OPTION BASE state machine: unset / implied by the first array / explicit -/
+
+/-- the "set by DIM" flag is never left standing while the base is unset (in particular not after
+    ERASE of the last array has dropped an implied base): the next OPTION BASE is an explicit one -/
+theorem base_unset_flag_clear (ops : List Op) :
+    (run State.init ops).1.base = none → (run State.init ops).1.byDim = false := by
+  intro h
+  have hw := wf_reachable ops
+  cases hd : (run State.init ops).1.byDim with
+  | false => rfl
+  | true => have := hw.byDim0 hd; rw [h] at this; cases this
+
+/-- once a base is in force, an operation other than CLEAR/NEW/RUN either keeps it, or it is an
+    ERASE that removes the last array while the base was only implied (then the base is unset and
+    the flag cleared).  In particular the base never changes while an array exists. -/
+theorem base_fixed_while_arrays (st : State) (b : Int) (hb : st.base = some b) (op : Op)
+    (hc : isClear op = false) :
+    (step st op).1.base = some b ∨
+    ((∃ l, op = .erase l) ∧ st.byDim = true ∧ (step st op).1.arrs = [] ∧
+      (step st op).1.base = none ∧ (step st op).1.byDim = false) := by
+  cases op with
+  | optionBase one => exact Or.inl (by simp only [step]; exact optionBase_base_some st _ b hb)
+  | dim l => exact Or.inl (by simp only [step]; exact dim_base_some st l b hb)
+  | get m idx =>
+    exact Or.inl (by rw [step_get_state, get_state]; exact checkDim_base_some st m idx b hb)
+  | set m idx v =>
+    have hk := checkDim_base_some st m idx b hb
+    refine Or.inl ?_
+    simp only [step, Arrays.set]
+    split
+    · next he => rw [he] at hk; exact hk
+    · next he => rw [he] at hk; exact hk
+  | clear => simp [isClear] at hc
+  | erase l =>
+    obtain ⟨e1, e2⟩ := eraseLoop_base st l
+    simp only [step, erase]
+    split
+    · next he => rw [he] at e1; exact Or.inl (by rw [e1]; exact hb)
+    · next s he =>
+      rw [he] at e1 e2
+      simp only at e1 e2
+      split
+      · next hcnd =>
+        simp only [Bool.and_eq_true, List.isEmpty_iff] at hcnd
+        exact Or.inr ⟨⟨l, rfl⟩, by rw [← e2]; exact hcnd.2, by simpa [clearBase] using hcnd.1, rfl, rfl⟩
+      · exact Or.inl (by rw [e1]; exact hb)
+
+/-- an implied base (flag set) is dropped by a successful ERASE exactly when no array is left -/
+theorem implied_base_dropped_iff (st st' : State) (hw : WF st) (hd : st.byDim = true)
+    (names : List Nat) (h : erase st names = (st', none)) :
+    (st'.base = none ↔ st'.arrs = []) := by
+  have hr := erase_base_rule st st' names h
+  constructor
+  · intro hn
+    by_contra hne
+    have := (hr.2 (fun c => hne c.1)).1
+    rw [hn, hw.byDim0 hd] at this; cases this
+  · intro he; exact (hr.1 he hd).1
+
+/-- an explicit OPTION BASE — one executed in a reachable state whose base is unset, whatever was
+    dimensioned, used and erased before — holds through every later history without CLEAR/NEW/RUN:
+    ERASE of all arrays, however often, never drops it; subscript checks keep using it. -/
+theorem explicit_option_base_permanent (pre : List Op) (b : Int)
+    (hu : (run State.init pre).1.base = none) (ops : List Op) (hn : ∀ op ∈ ops, isClear op = false) :
+    let st := (optionBase (run State.init pre).1 b).1
+    (run st ops).1.base = some b ∧ (run st ops).1.byDim = false := by
+  intro st
+  have hd := base_unset_flag_clear pre hu
+  have e : optionBase (run State.init pre).1 b = ({ (run State.init pre).1 with base := some b }, none) :=
+    (optionBase_spec _ b).1 (Or.inl hu)
+  exact explicit_base_persists st b (by simp [st, e]) (by simp [st, e, hd]) ops hn
+
 /-! ### non-vacuity: the hypotheses used above are satisfiable, the model computes -/
 
 example : InBounds 1 [1, 4] [3, 4] := .cons (by omega) (by omega) (.cons (by omega) (by omega) .nil)
@@ -570,6 +642,9 @@ example : (run State.init [.get 3 [11, 2], .dim [(3, [11, 2])], .get 3 [10, 10]]
 example : (run State.init [.dim [(0, [3])], .optionBase true, .erase [0], .optionBase true,
       .dim [(0, [0])], .dim [(0, [3])], .get 0 [0], .get 0 [1]]).2 =
     [.done, .err 10, .done, .done, .err 9, .done, .err 9, .val 0] := by decide
+example : (run State.init [.dim [(0, [3])], .erase [0], .optionBase true, .dim [(0, [3])], .erase [0],
+      .dim [(0, [3])], .set 0 [0] 5, .dim [(1, [0])], .optionBase false]).2 =
+    [.done, .done, .done, .done, .done, .done, .err 9, .err 9, .err 10] := by decide
 example : ∃ st, WF st ∧ st.base = some 1 ∧ st.byDim = false ∧ st.arrs ≠ [] :=
   ⟨(run State.init [.optionBase true, .dim [(0, [3])]]).1, wf_reachable _, by decide, by decide, by decide⟩
 
